@@ -442,6 +442,12 @@ class Models:
             else:
                 st.store.add_le(C(1) - n)          # `false` needs a differing byte inside [0, n)
                 eqg.on_differ(I, st, rx, xo, ry, yo, n)
+                from . import e3
+                e3.on_needle_differs(I, st, rx, xo, ry, yo, n)
+        if name == 'nzfrom' and self.e3 and not pos:
+            from . import e3
+            T, lo = arg
+            e3.on_lanes_clear(I, st, T, lo, None)
         if name != 'nz':
             key = (name, term_key(arg, st.store))
             preds = dict(st.ghost.get('preds', {}))
@@ -998,11 +1004,31 @@ def m_vector_op(I, fr, st, t, args, key):
     return None
 
 
+def lanemask(T, lo):
+    """a lane mask known as: the lanes of term T, with every lane below `lo` cleared.  Encoded as an AdtV with
+    a synthetic type id so that `lo` is generalised / tracked like any integer field (Houdini leaf)."""
+    return AdtV(('lanemask', T), 0, [IntV(lo)])
+
+
+def as_lanemask(v):
+    if isinstance(v, AdtV) and isinstance(v.tid, tuple) and v.tid and v.tid[0] == 'lanemask' and isinstance(v.fields[0], IntV):
+        return v.tid[1], v.fields[0].e
+    return None
+
+
 def m_mask_op(I, fr, st, t, args, key):
     if not I.models.e3:
         return None
     name = key.rsplit('::', 1)[1]
+    lms = [as_lanemask(a) for a in args]
+    if any(lms):
+        return m_lanemask_op(I, fr, st, t, args, key, name, lms)
     ts = [a.t if isinstance(a, TermV) else None for a in args]
+    if name == 'and' and len(ts) == 2 and all(x is not None for x in ts):
+        # mask & all_zeros_except_least_significant(k): the lanes of the mask from lane k on
+        for a, b in ((ts[0], ts[1]), (ts[1], ts[0])):
+            if isinstance(b, tuple) and b and b[0] == 'keep_from' and isinstance(b[1], LinExpr) and isinstance(a, tuple) and a and a[0] == 'movemask':
+                return ret1(st, lanemask(a, b[1]))
     if name == 'has_non_zero':
         return ret1(st, BoolV(('pred', True, 'nz', ts[0])))
     if name in ('first_offset', 'last_offset'):
@@ -1035,6 +1061,36 @@ def m_mask_op(I, fr, st, t, args, key):
     if name in ('and', 'or'):
         return ret1(st, TermV(('m' + name, ts[0], ts[1])))
     return None
+
+
+def m_lanemask_op(I, fr, st, t, args, key, name, lms):
+    T, lo = lms[0] if lms[0] else (None, None)
+    if name == 'has_non_zero' and lms[0]:
+        return ret1(st, BoolV(('pred', True, 'nzfrom', (T, st.store.nf(lo)))))
+    if name == 'first_offset' and lms[0]:
+        w = mask_width(T) or 32
+        o = fresh('lane')
+        st.store.add_range(V(o), 0, w - 1)
+        st.store.add_le(lo - V(o))                      # the lowest set lane is not one of the cleared ones
+        nz = I.models.entailed_pred(I, st, ('pred', True, 'nzfrom', (T, st.store.nf(lo))))
+        I.ob('AXIOM-PRE', fr, t['loc'], name, nz, '' if nz else f"{name} applied to a mask not known to be non-zero")
+        g = dict(st.ghost.get('lanes', {}))
+        g[o] = (name, T)
+        st.ghost['lanes'] = g
+        gl = dict(st.ghost.get('lane_lo', {}))
+        gl[o] = (term_key(T, st.store), st.store.nf(lo))
+        st.ghost['lane_lo'] = gl
+        from . import e3
+        e3.on_lanes_clear(I, st, T, lo, V(o))           # lanes [lo, o) are clear
+        return ret1(st, IntV(V(o)))
+    if name == 'clear_least_significant_bit' and lms[0]:
+        # the lowest set lane is the one first_offset reported for this very mask
+        tk, lk = term_key(T, st.store), st.store.nf(lo)
+        for o, (tk2, lo2) in st.ghost.get('lane_lo', {}).items():
+            if tk2 == tk and st.store.nf(lo2) == lk:
+                return ret1(st, lanemask(T, V(o) + 1))
+        return ret1(st, TermV(('clear_lsb', ('opaque', 'lanemask'))))
+    return ret1(st, TermV(('vec', fresh('mask'))))
 
 
 def mask_width(tm):
